@@ -22,10 +22,12 @@ class Monitor:
 class GraphECU(UDSServer):
     """Arbitrary session-transition graph: services[s][DSC] = successors(s)."""
 
-    def __init__(self, graph: dict[int, list[int]], offer_reset: bool = True) -> None:
+    def __init__(self, graph: dict[int, list[int]], offer_reset: bool = True, refuse_nrc: int | None = None) -> None:
         super().__init__()
         self.graph = {int(s): sorted(int(t) for t in ts) for s, ts in graph.items()}
         self.offer_reset = offer_reset
+        # the response code this ECU refuses a session change with (None: 0x7E / 0x12 as gallia's own server tells them apart)
+        self.refuse_nrc = refuse_nrc
         self.monitor = Monitor()
         self._services: dict[int, dict[UDSIsoServices, list[int] | None]] = {}
         for s, ts in self.graph.items():
@@ -45,6 +47,9 @@ class GraphECU(UDSServer):
         before = self.state.session
         self.monitor.saw(before, request.pdu)
         resp = await super().respond(request)
+        if (self.refuse_nrc is not None and request.pdu[:1] == b"\x10" and len(request.pdu) == 2 and isinstance(resp, service.NegativeResponse)
+                and int(resp.response_code) in (0x12, 0x7E)):
+            resp = service.NegativeResponse(0x10, UDSErrorCodes(self.refuse_nrc))
         if hasattr(self, "replies"):
             self.replies.append((before, bytes(request.pdu), resp.pdu if resp is not None else None))
         return resp
@@ -86,6 +91,16 @@ class ModelECU(RandomUDSServer):
         # (session, sid of a service the ECU does NOT implement there) -> bytes it answers with instead of a proper negative
         # response: a reply that belongs to no request (other service / truncated)
         self.garble: dict[tuple[int, int], bytes] = {}
+        # the ECU falls back to the default session on its own (session timer) right after it answered its k-th
+        # serviceNotSupported in a non-default session, for every k in this set
+        self.spont_drop: set[int] = set()
+        self._sns_in_session = 0
+        self.spont_fired = 0
+        # the ECU falls back to the default session on its own (session timer) right after it answered its k-th
+        # serviceNotSupported in a non-default session, k in this set
+        self.spont_drop: set[int] = set()
+        self._sns_in_session = 0
+        self.spont_fired = 0
 
     def randomize(self) -> None:
         self.services = {s: dict(sv) for s, sv in self._table.items()}
@@ -111,4 +126,9 @@ class ModelECU(RandomUDSServer):
             resp = await super().respond(request)
         if hasattr(self, "replies"):
             self.replies.append((before, bytes(request.pdu), resp.pdu if resp is not None else None))
+        if self.spont_drop and before != 1 and resp is not None and bytes(resp.pdu[:1]) == b"\x7f" and len(resp.pdu) == 3 and resp.pdu[2] == 0x11:
+            self._sns_in_session += 1
+            if self._sns_in_session in self.spont_drop:
+                self.state.reset()
+                self.spont_fired += 1
         return resp
